@@ -1,12 +1,188 @@
-//! C20: harness not built yet.
+//! C20: session / exchange slots are not leaked and live sessions are not evicted — unit level on
+//! the real session table with real `ReservedSession` and `Exchange` handles (their `Drop`s),
+//! `Sessions::{add, get_session_for_eviction, remove}`, and the transport's sweep steps.
+use crate::proto::{parse_cases, Out};
+use crate::rng::Rng;
 use crate::Args;
 
-pub fn gen(_a: &Args) -> String {
-    eprintln!("C20: harness not built yet");
-    std::process::exit(2);
+#[path = "transport_common.rs"]
+mod tc;
+use tc::{parse_snap, result_of, run_tab_with, GSnap};
+
+const RULE: &str = "a case is one op history on a fresh real session table (capacity 16 sessions x 5 exchanges): handshake attempts that reserve a slot (ReservedSession::reserve_now) and are abandoned before / after update, completed, or refused because the table is full; unsecured sessions added as for a first handshake message; exchanges initiated, opened by received messages, accepted or never accepted, dropped with pending ack / retransmission; sessions expired; eviction queries and evictions after virtual time steps (and at the same instant); then a quiescence phase - every handle dropped, accept deadline passed and accept sweep run for accept-pending exchanges, closer run until it finds nothing - and a final leak check op. Every op line carries the implementation's result and the table snapshot. Non-trivial = at least two distinct output lines; #stat lines give table-full refusals, evictions, closer actions; distinct = by op list";
+
+fn gen_case(r: &mut Rng, out: &mut Out, len: usize) {
+    run_tab_with(out, &mut |exec| {
+        let mut g: GSnap = parse_snap(&exec(&format!("setxid {}", r.range(1, 65535))));
+        let mut next_h = 0u32;
+        let mut xh: Vec<u32> = Vec::new();
+        let mut rh: Vec<(u32, bool)> = Vec::new(); // handle, updated
+        let mut peer_ctr: u64 = r.range(100, 1 << 30);
+        let mut port = 5000u64;
+        // how hard this case pushes the table
+        let fill = *r.pick(&[2u64, 6, 15, 16, 17, 20]);
+        let mut step = |exec: &mut dyn FnMut(&str) -> String, g: &mut GSnap, op: String, xh: &mut Vec<u32>, rh: &mut Vec<(u32, bool)>, next_h: u32| -> String {
+            let full = exec(&op);
+            let res = result_of(&full).to_string();
+            *g = parse_snap(&full);
+            let w: Vec<&str> = op.split_whitespace().collect();
+            match w[0] {
+                "init" if res.starts_with("x ") => xh.push(next_h),
+                "acc" if res == "ok" => xh.push(next_h),
+                "xdrop" => {
+                    let h: u32 = w[1][1..].parse().unwrap_or(0);
+                    xh.retain(|x| *x != h);
+                }
+                "rsv" if res.starts_with("id ") => rh.push((next_h, false)),
+                "upd" if res == "ok" => {
+                    let h: u32 = w[1][1..].parse().unwrap_or(0);
+                    for x in rh.iter_mut() {
+                        if x.0 == h {
+                            x.1 = true;
+                        }
+                    }
+                }
+                "cmp" | "drp" => {
+                    let h: u32 = w[1][1..].parse().unwrap_or(0);
+                    rh.retain(|x| x.0 != h);
+                }
+                _ => {}
+            }
+            res
+        };
+        for _ in 0..len {
+            let sess: Vec<u32> = g.sessions.iter().map(|s| s.uid).collect();
+            let pick_sess = |r: &mut Rng| -> u32 { if sess.is_empty() { 0 } else { *r.pick(&sess) } };
+            let live: Vec<(u32, usize, u32, String)> = g.sessions.iter()
+                .flat_map(|s| s.slots.iter().enumerate().filter_map(move |(i, sl)| sl.as_ref().map(|sl| (s.uid, i, sl.id, sl.role.clone())))).collect();
+            let want_more = (g.sessions.len() as u64) < fill;
+            let op: String = match r.below(100) {
+                0..=13 => {
+                    next_h += 1;
+                    "rsv r".to_string() + &next_h.to_string()
+                }
+                // cases that push the table: keep filling
+                14..=59 if want_more && fill >= 15 => {
+                    if r.chance(1, 2) {
+                        port += 1;
+                        format!("add {} 0 {}", r.below(1 << 32), port)
+                    } else {
+                        next_h += 1;
+                        format!("rsv r{}", next_h)
+                    }
+                }
+                14..=19 if want_more => {
+                    port += 1;
+                    format!("add {} 0 {}", r.below(1 << 32), port)
+                }
+                14..=19 => format!("t {}", r.range(1, 50)),
+                20..=27 => {
+                    // the handshake proceeds: update (with an id from the allocator), then complete
+                    match rh.iter().find(|x| !x.1).copied() {
+                        Some((h, _)) => {
+                            let sid = step(exec, &mut g, "sid".into(), &mut xh, &mut rh, next_h);
+                            format!("upd r{} {} {} {}", h, sid, r.range(1, 65535), if r.chance(1, 2) { "c" } else { "p" })
+                        }
+                        None => match rh.first().copied() {
+                            Some((h, _)) => format!("cmp r{}", h),
+                            None => { next_h += 1; format!("rsv r{}", next_h) }
+                        },
+                    }
+                }
+                28..=32 => match rh.iter().find(|x| x.1).copied() {
+                    Some((h, _)) => format!("cmp r{}", h),
+                    None => "t 3".into(),
+                },
+                33..=40 => {
+                    // the handshake is abandoned at this point
+                    if rh.is_empty() { "t 7".into() } else { format!("drp r{}", r.pick(&rh).0) }
+                }
+                41..=47 => {
+                    next_h += 1;
+                    format!("init {} h{}", pick_sess(r), next_h)
+                }
+                48..=55 => {
+                    peer_ctr += 1;
+                    format!("rx {} {} {} I - {} n", pick_sess(r), peer_ctr, r.range(1, 65535), if r.chance(3, 4) { "r" } else { "u" })
+                }
+                56..=59 => {
+                    let pend: Vec<_> = live.iter().filter(|l| l.3 == "RP").collect();
+                    if pend.is_empty() { "t 11".into() } else {
+                        let l = *r.pick(&pend);
+                        next_h += 1;
+                        format!("acc {} {} h{}", l.0, l.1, next_h)
+                    }
+                }
+                60..=62 => {
+                    let owned: Vec<_> = live.iter().filter(|l| l.3 == "RO" || l.3 == "IO").collect();
+                    if owned.is_empty() { "t 13".into() } else {
+                        let l = *r.pick(&owned);
+                        format!("tx {} {} r - n", l.0, l.1)
+                    }
+                }
+                63..=69 => if xh.is_empty() { "t 17".into() } else { format!("xdrop h{}", *r.pick(&xh)) },
+                70..=76 => {
+                    // mostly after a time step, sometimes at the very instant of the last use
+                    if r.chance(3, 4) {
+                        step(exec, &mut g, format!("t {}", r.range(1, 2000)), &mut xh, &mut rh, next_h);
+                    }
+                    "evict".into()
+                }
+                77..=84 => {
+                    if r.chance(3, 4) {
+                        step(exec, &mut g, format!("t {}", r.range(1, 2000)), &mut xh, &mut rh, next_h);
+                    }
+                    "evictrm".into()
+                }
+                85..=87 => format!("exp {}", pick_sess(r)),
+                88..=91 => "swd".into(),
+                92..=93 => format!("rm {}", pick_sess(r)),
+                _ => format!("t {}", *r.pick(&[1u64, 100, 1000, 5000])),
+            };
+            step(exec, &mut g, op, &mut xh, &mut rh, next_h);
+        }
+        // quiescence: traffic stops, every task ends
+        for h in xh.clone() {
+            step(exec, &mut g, format!("xdrop h{}", h), &mut xh, &mut rh, next_h);
+        }
+        for (h, upd) in rh.clone() {
+            let op = if upd && r.chance(1, 2) { format!("cmp r{}", h) } else { format!("drp r{}", h) };
+            step(exec, &mut g, op, &mut xh, &mut rh, next_h);
+        }
+        step(exec, &mut g, "t 1000".into(), &mut xh, &mut rh, next_h);
+        let pend: Vec<(u64, u32, u32)> = g.sessions.iter()
+            .flat_map(|s| s.slots.iter().flatten().filter(|sl| sl.role == "RP").map(move |sl| (s.port as u64, s.lsid, sl.id))).collect();
+        for (p, ls, x) in pend {
+            step(exec, &mut g, format!("swa {} {} {} I", p, ls, x), &mut xh, &mut rh, next_h);
+        }
+        for _ in 0..100 {
+            if step(exec, &mut g, "swd".into(), &mut xh, &mut rh, next_h) == "none" {
+                break;
+            }
+        }
+        step(exec, &mut g, "qchk".into(), &mut xh, &mut rh, next_h);
+    });
 }
 
-pub fn replay(_a: &Args) -> String {
-    eprintln!("C20: harness not built yet");
-    std::process::exit(2);
+pub fn gen(a: &Args) -> String {
+    let mut r = Rng::new(a.seed);
+    let mut out = Out::default();
+    out.buf.push_str(&format!("#rule {}\n", RULE));
+    let n_cases = if a.thorough { 40000 } else { 6000 };
+    for id in 0..n_cases {
+        let mut cr = r.fork();
+        let len = if a.thorough { cr.range(10, 200) } else { cr.range(10, 80) } as usize;
+        out.case(id, "tab");
+        gen_case(&mut cr, &mut out, len);
+    }
+    out.finish()
+}
+
+pub fn replay(a: &Args) -> String {
+    let text = std::fs::read_to_string(a.input.as_ref().expect("--in")).expect("read input");
+    let mut out = Out::default();
+    for c in parse_cases(&text) {
+        tc::run_case(&mut out, &c);
+    }
+    out.finish()
 }
